@@ -303,6 +303,8 @@ def build(tier, seed):
     for op, n in chosen:
         confs.append((1, 3, [("count", 0, op, n)], ["c,d,DistinctCount,k0 %s %d" % (op, n)], False))
     confs.append((1, 3, [("unique", [0]), ("count", 0, ">=", 2)], ["c,u,IsUnique,k0", "c,d,DistinctCount,k0 >= 2"], False))
+    # two DistinctCount checks count their own field each
+    confs.append((2, 2, [("count", 0, "<=", 1), ("count", 1, "<=", 1)], ["c,d0,DistinctCount,k0 <= 1", "c,d1,DistinctCount,k1 <= 1"], False))
     # the distinct count of the second pass over the same data starts from nothing
     confs.append((1, 2, [("count", 0, "==", 1)], ["c,d,DistinctCount,k0 == 1"], True))
     confs.append((1, 3, [("count", 0, ">=", 2)], ["c,d,DistinctCount,k0 >= 2"], True))
